@@ -18,6 +18,7 @@ import (
 	"fmt"
 	"strconv"
 	"strings"
+	"unicode"
 
 	"cuelang.org/go/cue/ast"
 	"cuelang.org/go/cue/token"
@@ -295,6 +296,19 @@ func (p *pivotter) makeParentPath(d *depData) {
 		str = f.IdentString(p.x.ctx)
 		str = strings.TrimLeft(str, "_#")
 		str = strings.ToUpper(str)
+		if !ast.IsValidIdent(str) {
+			// Any string can be a label; keep what can be part of an
+			// identifier and make sure the name starts like one.
+			str = strings.Map(func(r rune) rune {
+				if unicode.IsLetter(r) || unicode.IsDigit(r) || r == '_' || r == '$' {
+					return r
+				}
+				return '_'
+			}, str)
+			if !ast.IsValidIdent(str) {
+				str = "X" + str
+			}
+		}
 	}
 	uf, _ := p.x.uniqueFeature(str)
 
